@@ -561,6 +561,10 @@ func checkTrack(res *core.Result, log *core.Log, s *Scenario, ses *session, fixe
 	r.MaxCalls = 4*len(w.Buf) + 400
 	var t *igc.T
 	if p := core.Guard(func() { t, err = igc.Read(r) }); p != "" {
+		if r.Runaway {
+			res.Fail("runaway-reader", "runaway-reader", "Read (%s) went on calling the reader (%d calls for %d bytes) although it kept refusing", what, len(r.Calls), len(w.Buf))
+			return false
+		}
 		res.Fail("panic", "panic:read:"+core.PanicSite(p), "Read panicked (%s) on\n%s\n%s", what, w.Buf, p)
 		return false
 	}
@@ -844,6 +848,11 @@ func faulty(s *Scenario, log *core.Log) core.Result {
 	var t *igc.T
 	var err error
 	if p := core.Guard(func() { t, err = igc.Read(r) }); p != "" {
+		if r.Runaway {
+			res.Count("read-error", int64(r.Errs))
+			res.Fail("runaway-reader", "runaway-reader", "Read went on calling the reader (%d calls for %d bytes; %d stalls, %d errors returned) although it kept refusing; stream:\n%s", len(r.Calls), len(text), r.Stalls, r.Errs, head(text))
+			return res
+		}
 		res.Fail("panic", "panic:read:"+core.PanicSite(p), "Read panicked: %s; stream (%d bytes):\n%s", p, len(text), head(text))
 		return res
 	}
